@@ -1,6 +1,6 @@
 #!/bin/bash
 # try_seed.sh <dir with patch.diff> <PROP> [tier] : applies the patch to /repo, runs the property's check, restores /repo. FOREGROUND ONLY.
-D=$1; P=$2; T=${3:-quick}
+D=$(readlink -f $1); P=$2; T=${3:-quick}
 cd /verif
 [ -z "$(git -C /repo status --porcelain)" ] || { echo "repo not clean"; exit 2; }
 git -C /repo apply $D/patch.diff || { echo "patch does not apply to /repo"; exit 2; }
